@@ -229,7 +229,8 @@ def r2(ctx, F, bs):
 def r3(ctx, F, bs):
     cg = callgraph_of(F)
     sites = cg.call_sites(lambda c: c == 'archive::Archive::save')
-    ctx.check(len(sites) == 1 and sites[0][0].path == RUN, 'C08.R3', 'save:single-call-site', 'only run_bisync calls Archive::save',
+    # (several call sites inside run_bisync are several ways to finish - each one is judged below; a call from elsewhere is not)
+    ctx.check(len(sites) >= 1 and all(x[0].path.split('::{')[0] == RUN for x in sites), 'C08.R3', 'save:single-call-site', 'only run_bisync calls Archive::save',
               'Archive::save is called from %s' % sorted(b.path for b, _, _ in sites), None)
     r = bs.rfl
     R = bs.run
@@ -241,8 +242,13 @@ def r3(ctx, F, bs):
         heads = [h for h, blocks in loops.items() if ab in blocks]
         nexts = [nb for nb, nt in r.calls_to('std::iter::Iterator::next') if any(nb in loops[h] for h in heads)]
         after_loop = bool(nexts) and any(r.guarded_by(sb, nb, 'None') for nb in nexts) and not any(sb in loops[h] for h in heads)
-        ctx.check(after_loop, 'C08.R3', 'run_bisync:save-after-apply-loop', 'save guarded by the exhaustion (None) edge of the plan iterator',
-                  'Archive::save is reachable before every planned action was applied (inside or before the apply loop)', term_loc(R, sb))
+        if not after_loop and not cfg.can_reach(sb, ab) and not any(sb in loops[h] for h in heads) and len(r.calls_to('archive::Archive::save')) > 1:
+            # a second way to finish that does not run the apply loop at all (a fast path for plans with nothing to deliver):
+            # nothing is applied after this record - whether anything was PENDING on this path is a question about the plan
+            ctx.undecided('C08.R3', 'run_bisync records the archive on a path that does not run the apply loop: that the plan held nothing to deliver there is not decided')
+        else:
+            ctx.check(after_loop, 'C08.R3', 'run_bisync:save-after-apply-loop', 'save guarded by the exhaustion (None) edge of the plan iterator',
+                      'Archive::save is reachable before every planned action was applied (inside or before the apply loop)', term_loc(R, sb))
         oc = r.outcomes(ab)
         err = oc.get('Err', set())
         reach_err = set()
